@@ -71,6 +71,32 @@ def concrete_best(inp):
     shapes = [("decaying", lambda x: 0.4 * math.exp(-2 * x)), ("growing", lambda x: 0.02 * math.exp(1.5 * x)), ("flat", lambda x: 0.05 + 0.01 * x)]
     with warnings.catch_warnings():
         warnings.simplefilter("ignore")
+        # more temperature terms requested than distinct temperatures: every (n', m') within the requested orders is a candidate
+        for temps, (n, m) in (((313.15,), (0, 2)), ((313.15, 333.15), (0, 3)), ((313.15,), (1, 3))):
+            pts = [(x, t, round(0.03 * math.exp(-1.2 * x) * (1 + 0.4 * (t - 313.15) / 20), 5)) for t in temps for x in (0.15, 0.45, 0.8)]
+            tried, orig_fit = [], opt.fit
+
+            def rec(data, n=None, m=None, include_zero=False, component_index=0, _o=orig_fit, _t=tried):
+                _t.append((n, m))
+                return _o(data, n=n, m=m, include_zero=include_zero, component_index=component_index)
+
+            opt.fit = rec
+            try:
+                best = opt.find_best_fit(Measurements(data=[Measurement(*p) for p in pts]), n=n, m=m)
+            finally:
+                opt.fit = orig_fit
+            missing = sorted(set((a, b) for a in range(n + 1) for b in range(m + 1)) - set(tried))
+            if missing:
+                bad.append("find_best_fit(n=%d, m=%d) on %d distinct temperature(s) never tried the orders %r" % (n, m, len(temps), missing))
+            loss = lambda g: sum((g(p[0], p[1]) - p[2]) ** 2 for p in pts)
+            for nn in range(n + 1):
+                for mm in range(m + 1):
+                    cand = opt.fit(Measurements(data=[Measurement(*p) for p in pts]), n=nn, m=mm)
+                    if loss(best) > loss(cand) * (1 + 1e-9) + 1e-15:
+                        bad.append("find_best_fit(n=%d, m=%d) on %d temperature(s) returned (%d, %d) with squared error %.6e, the single fit (%d, %d) has %.6e"
+                                   % (n, m, len(temps), best.n, best.m, loss(best), nn, mm, loss(cand)))
+            if bad:
+                return {"ok": False, "detail": "; ".join(bad[:2]), "inputs": inp}
         for name, f in shapes:
             for temps in ((313.15,), (313.15, 333.15)):
                 pts = [(x, t, round(f(x) * (1 + 0.3 * (t - 313.15) / 20), 4)) for t in temps for x in (0.1, 0.3, 0.5, 0.7, 0.9)]
@@ -374,6 +400,8 @@ def jobs(tier):
                         continue
                     js.append(("purity_%s_p%d_z%d_c%d" % (entry, p, int(iz), ci), "purity", {"npts": p, "include_zero": iz, "component_index": ci, "entry": entry}))
     js.append(("best_of_p3_n1_m1", "best_of", {"npts": 3, "n": 1, "m": 1}))
+    # more temperature terms requested than there are distinct temperatures (1 or 2 of them, by the coincidence pattern of the two points)
+    js.append(("best_of_p2_n0_m2_c0", "best_of", {"npts": 2, "n": 0, "m": 2, "include_zero": False, "component_index": 0}))
     js.append(("best_of_p2_n1_m0_zero_c1", "best_of", {"npts": 2, "n": 1, "m": 0, "include_zero": True, "component_index": 1}))
     js.append(("best_of_p3_n1_m1_zero_c0", "best_of", {"npts": 3, "n": 1, "m": 1, "include_zero": True, "component_index": 0}))
     if tier == "thorough":
